@@ -1,9 +1,10 @@
 /-
   C45 — Verified balances are backed by a proof to the header's app hash.  PROPERTY THEOREMS ONLY.
 
-  Model: `Lumina/Model/AbciProofs.lean`; spec: `Lumina/Spec/C45.lean`.  Everything is proved for
+  Model: `Lumina/Model/AbciProofs.lean`; spec: `Lumina/Spec/C45.lean`.  Soundness is proved for
   an ARBITRARY ics23 membership function `vm` (no assumption on it), every chain length, every
-  key list, every response.
+  key list, every response; the tamper-rejection theorems take the binding idealisations
+  `Binding` / `ProofDetermines` as explicit hypotheses (witness instance `vmW`).
 -/
 import Lumina.Proofs.AbciProofs
 import Lumina.Gen.C45
@@ -132,5 +133,168 @@ theorem fullStatement_false : ¬ FullStatement := by
   have := h (fun _ _ _ _ _ => false) [] [] (some ⟨0, [], none⟩)
   have h2 := (balance_counterexample (fun _ _ _ _ _ => false) [] []).2
   exact absurd (h2 ▸ this : false = true) (by decide)
+
+/-! ## tampering (under explicit, satisfiable idealisations of ics23) -/
+
+theorem accepted_backed (vm : VM) (addr appHash : Bytes) (r : AbciResponse) (n : Nat) (hne : r.value ≠ [])
+    (h : obsOf (getVerifiedBalance vm addr appHash (some r)) = .ok n) :
+    backed vm addr appHash (some r) n = true := by
+  have := balance_backed_partial vm addr appHash (some r) (by intro r' e; cases e; exact hne)
+  rw [h] at this
+  exact this
+
+/-- **binding of the commitment scheme** (the idealisation of ics23 + SHA-256 under which
+    "tampered values are rejected" is meaningful): under a given root and spec, at most one value
+    verifies for a key — whatever proofs are presented -/
+def Binding (vm : VM) : Prop :=
+  ∀ (p p' : CProof) (s : SpecKind) (root key v v' : Bytes),
+    vm p s root key v = true → vm p' s root key v' = true → v = v'
+
+/-- a given proof verifies for at most one (root, value) pair per key and spec (true of ics23 by
+    construction: the root is COMPUTED from the existence proof found for the key, the value is
+    the one inside it) -/
+def ProofDetermines (vm : VM) : Prop :=
+  ∀ (p : CProof) (s : SpecKind) (key root v root' v' : Bytes),
+    vm p s root key v = true → vm p s root' key v' = true → root = root' ∧ v = v'
+
+/-- a witness instance: "the root is `key ++ 0xff :: value`" -/
+def vmW : VM := fun p _ root key v =>
+  match p with
+  | .exist e => e.key == key && e.value == v && root == key ++ 255 :: v
+  | _ => false
+
+theorem vmW_binding : Binding vmW := by
+  intro p p' s root key v v' h h'
+  unfold vmW at h h'
+  cases p <;> cases p' <;> simp at h h'
+  obtain ⟨-, rfl⟩ := h
+  obtain ⟨-, h2⟩ := h'
+  have := List.append_cancel_left h2
+  simpa using this
+
+theorem vmW_proofDetermines : ProofDetermines vmW := by
+  intro p s key root v root' v' h h'
+  unfold vmW at h h'
+  cases p <;> simp at h h'
+  obtain ⟨⟨-, rfl⟩, rfl⟩ := h
+  obtain ⟨⟨-, h1⟩, rfl⟩ := h'
+  exact ⟨by rw [h1], h1⟩
+
+/-- the hypotheses are satisfiable together with an accepted balance: the witness accepts an honest
+    two-link answer -/
+example : Binding vmW ∧ ProofDetermines vmW ∧
+    obsOf (getVerifiedBalance vmW [1] (BANK ++ 255 :: (bankKey [1] ++ 255 :: [53, 48]))
+      (some ⟨0, [53, 48], some [⟨.iavl, bankKey [1], some (.exist ⟨bankKey [1], [53, 48], none, none⟩)⟩,
+        ⟨.simple, BANK, some (.exist ⟨BANK, bankKey [1] ++ 255 :: [53, 48], none, none⟩)⟩]⟩)) = .ok 50 :=
+  ⟨vmW_binding, vmW_proofDetermines, by decide⟩
+
+/-- the driver's transcription of ics23's top level determines (root, value) from the proof -/
+theorem ics23_proofDetermines : ProofDetermines Ics23.verifyMembership := by
+  intro p s key root v root' v' h h'
+  unfold Ics23.verifyMembership at h h'
+  cases hg : Ics23.getExistProof p key with
+  | none => simp [hg] at h
+  | some e =>
+    simp only [hg] at h h'
+    cases hc : e.calc s with
+    | none => simp [hc] at h
+    | some r =>
+      simp only [hc, Bool.and_eq_true, beq_iff_eq] at h h'
+      exact ⟨by rw [← h.2, ← h'.2], by rw [← h.1.2, ← h'.1.2]⟩
+
+/-- **two verified answers for the same account under the same app hash carry the same value**
+    (binding `vm`): a node cannot get two different balances verified against one header.  The two
+    answers may carry completely different proofs; they only have to use the same specs. -/
+theorem verified_value_unique (vm : VM) (hb : Binding vm) (addr appHash : Bytes) (r r' : AbciResponse)
+    (n n' : Nat) (hne : r.value ≠ []) (hne' : r'.value ≠ [])
+    (hspec : ∀ c c', opsOf (r.proofOps.getD []) = some c → opsOf (r'.proofOps.getD []) = some c' →
+      c.map (·.spec) = c'.map (·.spec))
+    (h : obsOf (getVerifiedBalance vm addr appHash (some r)) = .ok n)
+    (h' : obsOf (getVerifiedBalance vm addr appHash (some r')) = .ok n') :
+    r.value = r'.value ∧ n = n' := by
+  obtain ⟨a0, a1, x, ho, -, -, -, hv0, hv1, hd⟩ := backed_links vm addr appHash r n (accepted_backed vm addr appHash r n hne h)
+  obtain ⟨b0, b1, y, ho', -, -, -, hw0, hw1, hd'⟩ := backed_links vm addr appHash r' n' (accepted_backed vm addr appHash r' n' hne' h')
+  have hs := hspec _ _ ho ho'
+  simp only [List.map_cons, List.map_nil, List.cons.injEq, and_true] at hs
+  obtain ⟨hs0, hs1⟩ := hs
+  rw [← hs1] at hw1
+  have hxy : x = y := hb _ _ _ _ _ _ _ hv1 hw1
+  subst hxy
+  rw [← hs0] at hw0
+  have hval : r.value = r'.value := hb _ _ _ _ _ _ _ hv0 hw0
+  refine ⟨hval, ?_⟩
+  rw [hval, hd'] at hd
+  exact (Option.some.inj hd).symm
+
+/-- **a tampered value is rejected** (binding `vm`): if an answer is verified, the same answer with
+    any other non-empty value in place of the returned one is not -/
+theorem tampered_value_rejected (vm : VM) (hb : Binding vm) (addr appHash : Bytes) (r : AbciResponse)
+    (n : Nat) (v' : Bytes) (hne : r.value ≠ []) (hne' : v' ≠ []) (hv : v' ≠ r.value)
+    (h : obsOf (getVerifiedBalance vm addr appHash (some r)) = .ok n) :
+    obsOf (getVerifiedBalance vm addr appHash (some { r with value := v' })) = .err := by
+  cases hr : obsOf (getVerifiedBalance vm addr appHash (some { r with value := v' })) with
+  | err => rfl
+  | ok n' =>
+    exfalso
+    have := verified_value_unique vm hb addr appHash r { r with value := v' } n n' hne hne'
+      (by intro c c' hc hc'; simp only [hc] at hc'; cases hc'; rfl) h hr
+    exact hv this.1.symm
+
+theorem bankKey_injective (a a' : Bytes) (h : bankKey a = bankKey a') : a = a' := by
+  unfold bankKey at h
+  simp only [List.cons_append, List.nil_append, List.cons.injEq] at h
+  exact List.append_cancel_right h.2.2
+
+/-- **a tampered key is rejected** (no hypothesis on `vm`): an answer verified for one address
+    is not verified for any other address; and the first operation of a verified answer is keyed by
+    the bank key of the queried address, the second by `"bank"` -/
+theorem tampered_key_rejected (vm : VM) (addr addr' appHash appHash' : Bytes) (r : AbciResponse) (n : Nat)
+    (hne : r.value ≠ []) (ha : addr' ≠ addr)
+    (h : obsOf (getVerifiedBalance vm addr appHash (some r)) = .ok n) :
+    obsOf (getVerifiedBalance vm addr' appHash' (some r)) = .err := by
+  cases hr : obsOf (getVerifiedBalance vm addr' appHash' (some r)) with
+  | err => rfl
+  | ok n' =>
+    exfalso
+    obtain ⟨a0, a1, x, ho, hk, -⟩ := backed_links vm addr appHash r n (accepted_backed vm addr appHash r n hne h)
+    obtain ⟨b0, b1, y, ho', hk', -⟩ := backed_links vm addr' appHash' r n' (accepted_backed vm addr' appHash' r n' hne hr)
+    rw [ho] at ho'
+    cases ho'
+    exact ha (bankKey_injective _ _ (hk'.symm.trans hk))
+
+/-- **a tampered root is rejected** (`vm` computes the root from the proof): an answer verified
+    against one app hash is not verified against any other -/
+theorem tampered_root_rejected (vm : VM) (hd : ProofDetermines vm) (addr appHash appHash' : Bytes)
+    (r : AbciResponse) (n : Nat) (hne : r.value ≠ []) (ha : appHash' ≠ appHash)
+    (h : obsOf (getVerifiedBalance vm addr appHash (some r)) = .ok n) :
+    obsOf (getVerifiedBalance vm addr appHash' (some r)) = .err := by
+  cases hr : obsOf (getVerifiedBalance vm addr appHash' (some r)) with
+  | err => rfl
+  | ok n' =>
+    exfalso
+    obtain ⟨a0, a1, x, ho, -, -, -, -, hv1, -⟩ := backed_links vm addr appHash r n (accepted_backed vm addr appHash r n hne h)
+    obtain ⟨b0, b1, y, ho', -, -, -, -, hw1, -⟩ := backed_links vm addr appHash' r n' (accepted_backed vm addr appHash' r n' hne hr)
+    rw [ho] at ho'
+    cases ho'
+    exact ha (hd _ _ _ _ _ _ _ hv1 hw1).1.symm
+
+/-- **a tampered proof is rejected** (any `vm`): if no value committed to by the second operation
+    makes both links verify, the answer is not verified -/
+theorem tampered_proof_rejected (vm : VM) (addr appHash : Bytes) (r : AbciResponse) (hne : r.value ≠ [])
+    (hbad : ∀ op0 op1, opsOf (r.proofOps.getD []) = some [op0, op1] → ∀ r0 ∈ candidates op1.proof,
+      ¬ (vm op0.proof op0.spec r0 (bankKey addr) r.value = true ∧ vm op1.proof op1.spec appHash BANK r0 = true)) :
+    obsOf (getVerifiedBalance vm addr appHash (some r)) = .err := by
+  cases hr : obsOf (getVerifiedBalance vm addr appHash (some r)) with
+  | err => rfl
+  | ok n =>
+    exfalso
+    obtain ⟨a0, a1, x, ho, -, -, hx, hv0, hv1, -⟩ := backed_links vm addr appHash r n (accepted_backed vm addr appHash r n hne hr)
+    exact hbad a0 a1 ho x hx ⟨hv0, hv1⟩
+
+/-- **`verify_membership` with no keys on a non-empty chain underflows** (`current_idx - 1` with
+    `current_idx = 0`: debug-build panic) -/
+theorem verify_membership_no_keys_counterexample (vm : VM) (op : CommitmentOp) (chain : ProofChain)
+    (root leaf : Bytes) : (match verifyMembership vm (op :: chain) root [] leaf with | .panic => true | _ => false) = true := by
+  simp [verifyMembership, verifyLoop]
 
 end Lumina.Props.C45
